@@ -3,10 +3,10 @@ CONSTANTS
   PosPeriod = 1
   NegPeriod = 0
   MaxClock = 0
-  MaxCalls = 3
+  MaxCalls = 4
   AllowRChoices = {{}}
   AllowSChoices = {{"R"}}
-  RecogAInit = {TRUE}
+  RecogAInit = {FALSE}
   ChainPeers = {"A"}
   MaxChain = 0
   MaxErr = 0
@@ -14,24 +14,26 @@ CONSTANTS
   Nonces = {1}
   HsBudget = 0
   MaxDials = 1
-  MaxAdvDials = 1
+  MaxAdvDials = 0
   MaxDrops = 0
-  Handlers = {"h1"}
-  CancelHandlers = {}
+  Handlers = {"h1", "h2"}
+  CancelHandlers = {"h2"}
   MaxSend = 1
   MaxRetx = 2
   Cap = 1
   SecondCheck = TRUE
   Filter = TRUE
-  MaxTicks = 0
+  MaxTicks = 1
   Backoff1 = FALSE
   Backoff2 = TRUE
-  CancelMsgs = {}
-  MaxAdv = 1
-  AdvKinds = {"own"}
+  CancelMsgs = {1}
+  MaxAdv = 0
+  AdvKinds = {"own", "impostor"}
   FwInbound = TRUE
   VerifyAct1 = TRUE
   MatchInner = TRUE
   StrictSign = TRUE
   Reduce = TRUE
-INVARIANTS TypeOK PerNodeAdmission
+INVARIANTS TypeOK FirewallInvs HandshakeInvs BroadcastInvs RetransmissionInvs
+  LinkAuthenticated LinkJustified HopAdmitted RejectedNeverDelivered HandlerNeverSeesRejected NoImpostor HandlerSeesAuthor Authentic ForgedNeverRead
+  PubsExact SenderStops WireOnLiveLinks
